@@ -159,14 +159,13 @@ func writeMap(w io.Writer, m map[string]interface{}, sdl bool, depth, indent int
 		if 0 < indent {
 			_, err = w.Write(i2)
 		}
-		if err == nil && !sdl {
-			_, err = w.Write([]byte{'"'})
-		}
 		if err == nil {
-			_, err = w.Write([]byte(key))
-		}
-		if err == nil && !sdl {
-			_, err = w.Write([]byte{'"'})
+			if sdl {
+				_, err = w.Write([]byte(key))
+			} else {
+				// A JSON key is a string like any other and has to be escaped.
+				err = writeString(w, key, true)
+			}
 		}
 		if err == nil {
 			_, err = w.Write([]byte{':'})
